@@ -30,8 +30,8 @@ ASSUMPTIONS = [
     "file-system calls are serialised by the coordinator: races inside one call's kernel execution are not explored",
 ]
 SHARDS = {"quick": 12, "thorough": 14}
-FLOORS = {"quick": {"schedules": 200, "distinct_schedules": 150, "cached_calls_observed": 800, "preemption_points": 8, "refill_schedules": 6, "directory_refilled_before_its_rmdir": 4, "thread_duel_schedules": 4, "thread_duel_turns": 40},
-          "thorough": {"schedules": 5000, "distinct_schedules": 3500, "cached_calls_observed": 30000, "preemption_points": 12, "refill_schedules": 150, "directory_refilled_before_its_rmdir": 100, "thread_duel_schedules": 100, "thread_duel_turns": 1000}}
+FLOORS = {"quick": {"schedules": 200, "distinct_schedules": 150, "cached_calls_observed": 800, "preemption_points": 8, "refill_schedules": 6, "directory_refilled_before_its_rmdir": 4, "thread_duel_schedules": 4, "thread_duel_turns": 40, "thread_storm_rounds": 100, "thread_storm_calls": 5000, "thread_storm_preemptions": 20000},
+          "thorough": {"schedules": 5000, "distinct_schedules": 3500, "cached_calls_observed": 30000, "preemption_points": 12, "refill_schedules": 150, "directory_refilled_before_its_rmdir": 100, "thread_duel_schedules": 100, "thread_duel_turns": 1000, "thread_storm_rounds": 2000, "thread_storm_calls": 100000, "thread_storm_preemptions": 400000}}
 PART = os.path.join(harness.VERIF, "checks", "c11_part.py")
 
 FUNCS = '''
@@ -71,6 +71,8 @@ def cases(tier, seed):
     n = 260 if tier == "quick" else 6000
     for i in range(n):
         yield dict(i=i)
+    for i in range(14 if tier == "quick" else 280):
+        yield dict(i=i, kind="threads")
 
 
 def refill_policy(rng, state):
@@ -183,7 +185,51 @@ def gen_roles(rng):
     return roles
 
 
+THREADS = os.path.join(harness.VERIF, "checks", "c11_threads.py")
+
+
+def run_threads(case, ctx):
+    """threads of one process, pre-empted at line boundaries inside joblib's memory / store code (no file-system call
+    separates a test of in-memory state from its use)"""
+    rng = harness.rng_for(ctx.seed, ID, "threads", case["i"])
+    work = harness.mkscratch("vjl-c11t-")
+    try:
+        with open(os.path.join(work, "c11funcs.py"), "w") as f:
+            f.write(FUNCS)
+        cfg = dict(moddir=work, scratch=work, seed=rng.randrange(1 << 30), rounds=10, p_yield=rng.choice([0.02, 0.05, 0.1]), p_sleep=rng.choice([0.0, 0.01, 0.02]))
+        cf, of = os.path.join(work, "cfg.json"), os.path.join(work, "out.json")
+        with open(cf, "w") as f:
+            json.dump(cfg, f)
+        ctx.evaluated()
+        r = harness.run_py([THREADS, cf, of], timeout=240, result_file=of, cwd=work)
+        res = r["result"]
+        if not res:
+            ctx.inconclusive("thread-storm-child-failed", dict(cfg=cfg, err=r["err"][-400:]))
+            return
+        if not res["joblib"].startswith(harness.REPO):
+            ctx.inconclusive("wrong-joblib", res["joblib"])
+            return
+        ctx.count("thread_storm_rounds", res["counts"].get("rounds", 0))
+        ctx.count("thread_storm_calls", res["counts"].get("calls", 0))
+        ctx.count("thread_storm_disturbances", res["counts"].get("disturbances", 0))
+        ctx.count("thread_storm_preemptions", res["yields"])
+        ctx.maxi("thread_storm_preemption_points", res["points"])
+        for k, v in res["counts"].items():
+            if k.startswith(("disturber_raised", "shelved_")):
+                ctx.count(k, v)
+        ctx.sig(("threads", cfg["seed"]))
+        for key, n in res["errs"].items():
+            ctx.violation(("wrong-value:threads" if key == "wrong-value" else "raises:threads:" + key),
+                          f"threads of one process on one cache directory ({n}x in 10 rounds): {res['witness'].get(key)}", dict(cfg=cfg, witness=res["witness"].get(key)))
+        if case["i"] % 7 == 0:
+            ctx.sample(dict(kind="threads", cfg=cfg, counts=res["counts"]))
+    finally:
+        shutil.rmtree(work, ignore_errors=True)
+
+
 def run_case(case, ctx):
+    if case.get("kind") == "threads":
+        return run_threads(case, ctx)
     rng = harness.rng_for(ctx.seed, ID, case["i"])
     roles = gen_roles(rng)
     if rng.random() < 0.25 and not any(r.get("compress") for r in roles):
